@@ -68,6 +68,38 @@ func genProtoPlan(seed uint64, thorough bool) *Plan {
 		if g.chance(5) {
 			by = append(by, it)
 		}
+		if g.chance(10) {
+			// a protocol switch queued in a transaction: the EXEC reply is emitted
+			// after the switch, in the protocol the connection speaks by then
+			typedCmd := func() []string {
+				return g.pick2([][]string{{"HGETALL", g.key()}, {"HINCRBYFLOAT", g.key(), "f1", "0.25"}, {"SMEMBERS", g.key()}, {"INCRBYFLOAT", g.key(), "1.5"}, {"HSET", g.key(), g.field(), g.val()},
+					{"SADD", g.key(), g.member()}, {"SMISMEMBER", g.key(), "m1", "m2"}, {"GET", g.key()}, {"CONFIG", "GET", "maxmemory"}, {"LRANGE", g.key(), "0", "-1"}})
+			}
+			blockA, blockB := []Item{cmdItem("MULTI")}, []Item{cmdItem("MULTI")}
+			both := func(c []string) {
+				blockA = append(blockA, Item{Args: bs(c...)})
+				blockB = append(blockB, Item{Args: bs(c...)})
+			}
+			for j := 0; j <= g.r.IntN(3); j++ {
+				both(typedCmd())
+			}
+			// (the same arguments, or two valid ones: a HELLO refused while queueing
+			// aborts the transaction, and the twins' states must stay equal)
+			ha := g.helloArgs()
+			hb := ha
+			if g.chance(2) {
+				ha, hb = []string{"HELLO", g.pick("2", "3")}, []string{"HELLO", g.pick("2", "3")}
+			}
+			blockA = append(blockA, Item{Args: bs(ha...), Tag: "hello"})
+			blockB = append(blockB, Item{Args: bs(hb...), Tag: "hello"})
+			for j := 0; j < g.r.IntN(3); j++ {
+				both(typedCmd())
+			}
+			blockA = append(blockA, Item{Args: bs("EXEC"), Tag: "exec-hello"})
+			blockB = append(blockB, Item{Args: bs("EXEC"), Tag: "exec-hello"})
+			a = append(a, blockA...)
+			b = append(b, blockB...)
+		}
 		// protocol switches
 		if g.chance(9) {
 			h := Item{Args: bs(g.helloArgs()...), Tag: "hello"}
@@ -118,15 +150,26 @@ type protoChecker struct {
 	replies map[int][]*Op
 	typed   int
 	hellos  int
+	// transactions: queued protocol switches take effect when EXEC runs them
+	inMulti map[int]bool
+	queued  map[int][]queuedCmd
+	view    map[*Op]Value // EXEC replies with the HELLO elements blanked, for the twin comparison
+	execSw  int
+}
+
+type queuedCmd struct {
+	hello bool
+	valid bool
+	want  int // protocol a valid HELLO switches to; 0 = stays
 }
 
 func newProtoChecker(p *Plan) Checker {
-	return &protoChecker{plan: p, proto: map[int]int{0: 2, 1: 2, 2: 2}, replies: map[int][]*Op{}}
+	return &protoChecker{plan: p, proto: map[int]int{0: 2, 1: 2, 2: 2}, replies: map[int][]*Op{}, inMulti: map[int]bool{}, queued: map[int][]queuedCmd{}, view: map[*Op]Value{}}
 }
 
 func (c *protoChecker) OnStep(w *World) *Violation { return nil }
 func (c *protoChecker) Extra() map[string]int {
-	return map[string]int{"resp3-typed-compared": c.typed, "hello-switches": c.hellos}
+	return map[string]int{"resp3-typed-compared": c.typed, "hello-switches": c.hellos, "hello-switches-inside-exec": c.execSw}
 }
 
 func hasResp3Type(v Value) string {
@@ -271,30 +314,65 @@ func (c *protoChecker) OnReply(w *World, op *Op) *Violation {
 	}
 	argv := strs(op.Item.Args)
 	p := c.proto[op.Client]
+	// transactions: inside MULTI a command is only queued; a queued HELLO switches
+	// the protocol when EXEC runs it, so the EXEC reply - emitted after the
+	// switch - is in the protocol the connection speaks at that point
+	switch cmd := strings.ToLower(argv[0]); {
+	case cmd == "multi" && !c.inMulti[op.Client]:
+		if op.Reply.K == KSimple {
+			c.inMulti[op.Client] = true
+			c.queued[op.Client] = nil
+		}
+	case c.inMulti[op.Client] && cmd == "discard":
+		c.inMulti[op.Client] = false
+	case c.inMulti[op.Client] && cmd == "exec":
+		c.inMulti[op.Client] = false
+		if op.Reply.K == KArray {
+			q := c.queued[op.Client]
+			if len(op.Reply.A) != len(q) {
+				return &Violation{Oracle: "exec", Step: w.step, Fp: "exec:reply-count",
+					Msg: fmt.Sprintf("client %d: EXEC of %d queued commands returned %d replies", op.Client, len(q), len(op.Reply.A))}
+			}
+			v := Value{K: KArray, A: append([]Value(nil), op.Reply.A...)}
+			for i, qc := range q {
+				if !qc.hello {
+					continue
+				}
+				if qc.valid && qc.want != 0 && !op.Reply.A[i].IsErr() {
+					if qc.want != c.proto[op.Client] {
+						c.execSw++
+					}
+					c.proto[op.Client] = qc.want
+				}
+				if qc.valid && op.Reply.A[i].IsErr() {
+					return &Violation{Oracle: "hello", Step: w.step, Fp: "hello:refused-valid:exec",
+						Msg: fmt.Sprintf("client %d: element %d of EXEC is the reply of a valid HELLO, got %s", op.Client, i, clipS(op.Reply.A[i].String(), 120))}
+				}
+				if !qc.valid && !op.Reply.A[i].IsErr() {
+					return &Violation{Oracle: "hello", Step: w.step, Fp: "hello:accepted-invalid:exec",
+						Msg: fmt.Sprintf("client %d: element %d of EXEC is the reply of a HELLO that should be refused, got %s", op.Client, i, clipS(op.Reply.A[i].String(), 120))}
+				}
+				v.A[i] = Value{K: KNil} // server info: names the connection, not comparable between twins
+			}
+			c.view[op] = v
+		}
+	case c.inMulti[op.Client]:
+		if op.Reply.K == KSimple && op.Reply.S == "QUEUED" {
+			qc := queuedCmd{}
+			if cmd == "hello" {
+				qc.hello = true
+				qc.want, qc.valid = helloWants(argv, 0) // 0: no version given, the protocol stays
+			}
+			c.queued[op.Client] = append(c.queued[op.Client], qc)
+		}
+		if cmd == "hello" {
+			return nil
+		}
+	}
+	p = c.proto[op.Client]
 	// (2) HELLO switches exactly this connection, and only when valid
 	if strings.EqualFold(argv[0], "hello") {
-		want := p
-		valid := true
-		if len(argv) > 1 {
-			switch argv[1] {
-			case "2":
-				want = 2
-			case "3":
-				want = 3
-			default:
-				valid = false
-			}
-		}
-		if valid && len(argv) > 2 {
-			// SETNAME with an invalid name is refused as a whole
-			if len(argv) == 4 && strings.EqualFold(argv[2], "SETNAME") {
-				if strings.ContainsAny(argv[3], " \n\r") {
-					valid = false
-				}
-			} else {
-				valid = false
-			}
-		}
+		want, valid := helloWants(argv, p)
 		if !valid {
 			if !op.Reply.IsErr() {
 				return &Violation{Oracle: "hello", Step: w.step, Fp: "hello:accepted-invalid",
@@ -348,6 +426,35 @@ func (c *protoChecker) OnReply(w *World, op *Op) *Violation {
 
 func (c *protoChecker) compare(w *World, ra, rb *Op, i int) *Violation {
 	argv := strs(ra.Item.Args)
+	if va, ok := c.view[ra]; ok {
+		if vb, ok := c.view[rb]; ok && len(va.A) == len(vb.A) {
+			// EXEC: element by element (the HELLO elements are blanked)
+			pa, pb := ra.protoAt, rb.protoAt
+			for j := range va.A {
+				var ok bool
+				switch {
+				case pa == 2 && pb == 3:
+					ok = sameInfo(va.A[j], vb.A[j])
+				case pa == 3 && pb == 2:
+					ok = sameInfo(vb.A[j], va.A[j])
+				default:
+					ok = looseEqual(va.A[j], vb.A[j])
+				}
+				if pa != pb && (hasResp3Type(va.A[j]) != "" || hasResp3Type(vb.A[j]) != "") {
+					c.typed++
+				}
+				if !ok {
+					return &Violation{Oracle: "twins", Step: w.step, Fp: "twins:exec:" + va.A[j].K.String() + "/" + vb.A[j].K.String(),
+						Msg: fmt.Sprintf("command #%d EXEC on equal state, element %d: the RESP%d reply is not the down-conversion of the RESP%d reply:\n  RESP%d: %q\n  RESP%d: %q", i, j, min(pa, pb), max(pa, pb), pa, clip(ra.Raw, 300), pb, clip(rb.Raw, 300))}
+				}
+			}
+			return nil
+		}
+	}
+	if ra.Item.Tag == "exec-hello" && (ra.Reply.IsErr() || rb.Reply.IsErr()) {
+		// the twins queued different HELLOs: one may have been refused while queueing
+		return nil
+	}
 	if replyDependsOnChance(argv) && !strings.EqualFold(argv[0], "client") {
 		// shape only: both errors or both not
 		if ra.Reply.IsErr() != rb.Reply.IsErr() {
@@ -389,6 +496,57 @@ func (c *protoChecker) compare(w *World, ra, rb *Op, i int) *Violation {
 }
 
 func (c *protoChecker) protoAtReply(op *Op) int { return op.protoAt }
+
+// looseEqual: two replies in the same protocol carry the same information
+// (unordered where the reply may be a map or set in either protocol).
+func looseEqual(a, b Value) bool {
+	da, db := down(a), down(b)
+	if valuesEqual(da, db) {
+		return true
+	}
+	if da.IsErr() && db.IsErr() {
+		return da.ErrClass() == db.ErrClass()
+	}
+	if da.K == KArray && db.K == KArray && len(da.A) == len(db.A) {
+		if unorderedEqual(da, db, false) || unorderedEqual(da, db, true) {
+			return true
+		}
+		for i := range da.A {
+			if !looseEqual(a.A[i], b.A[i]) {
+				return false
+			}
+		}
+		return true
+	}
+	return false
+}
+
+// helloWants: the protocol a HELLO asks for (p when it names none) and whether
+// the command is valid as a whole.
+func helloWants(argv []string, p int) (want int, valid bool) {
+	want, valid = p, true
+	if len(argv) > 1 {
+		switch argv[1] {
+		case "2":
+			want = 2
+		case "3":
+			want = 3
+		default:
+			valid = false
+		}
+	}
+	if valid && len(argv) > 2 {
+		// SETNAME with an invalid name is refused as a whole
+		if len(argv) == 4 && strings.EqualFold(argv[2], "SETNAME") {
+			if strings.ContainsAny(argv[3], " \n\r") {
+				valid = false
+			}
+		} else {
+			valid = false
+		}
+	}
+	return
+}
 
 // leafCount: number of scalar values in a reply, aggregates flattened.
 func leafCount(v Value) int {
